@@ -98,9 +98,14 @@ func (u *Unit) call(f *Frame, st *State, cc *ssa.CallCommon, res ssa.Value, pos 
 		if n > 40 || hasLoop(callee) {
 			u.extDefault("abstracted callee (wiring unit): " + u.ctx.funcKey(callee))
 			res := u.freshResults(st, resTy)
-			// the callee may write anything reachable: forget all heaps
+			// forget the heaps the callee (transitively) may write
+			hs, all := u.ctx.heapWrites(u, callee, 0)
 			for _, k := range sortedKeys(u.heapTy) {
-				if t := u.heapTy[k]; t != nil {
+				t := u.heapTy[k]
+				if t == nil {
+					continue
+				}
+				if _, w := hs[k]; w || all {
 					st.heaps[k] = u.em.fresh(k, u.heapSortU(k, t))
 				}
 			}
